@@ -1,15 +1,14 @@
-SPECIFICATION Spec
+SPECIFICATION SimSpec
 CONSTANTS
   Users = {"admin", "u1"}
   Passwords = {"p", "q", "wrong"}
   NewPasswords = {"p", "q"}
   Clients0 = {"b", "c"}
-  MaxRemotes = {2}
-  Timeouts = {2}
-  MaxDepth = 7
-  MaxSid = 3
-  SimMode = FALSE
-CONSTRAINT Bound
+  MaxRemotes = {1, 2, 3}
+  Timeouts = {1, 2, 3}
+  MaxDepth = 100
+  MaxSid = 8
+  SimMode = TRUE
 INVARIANT C_LoginNeedsCredentials
 INVARIANT C_LoginNeedsPower
 INVARIANT C_LoginRespectsLimit
